@@ -37,7 +37,16 @@ MPT_STRUCT(streaminfo)
 	~streaminfo();
 	
 	bool set_flags(int);
+	/* disable copy: destructor closes the descriptors */
+# if __cplusplus >= 201103L
+	streaminfo(const streaminfo &) = delete;
+	streaminfo & operator =(const streaminfo &) = delete;
     private:
+# else
+    private:
+	streaminfo(const streaminfo &);
+	streaminfo & operator =(const streaminfo &);
+# endif
 #else
 # define MPT_STREAMINFO_INIT { 0 }
 # define MPT_stream_flush(f) (((f) & MPT_STREAMFLAG(FlushLine)) ? MPT_stream_newline_write(f) : -1)
@@ -94,6 +103,15 @@ enum MPT_STREAMFLAG(Flags) {
 	void set_error(int);
 	
 	bool open(const char *, const char * = "r");
+	/* disable copy: destructor closes the descriptors and frees the queue storage */
+# if __cplusplus >= 201103L
+	stream(const stream &) = delete;
+	stream & operator =(const stream &) = delete;
+# else
+    private:
+	stream(const stream &);
+	stream & operator =(const stream &);
+# endif
     protected:
 	friend class io::stream;
 #else
